@@ -27,7 +27,7 @@ PROX = ["prox_non_negative", "soft_thresholding", "l2_prox", "l2_square_prox", "
         "unimodality_prox", "hard_thresholding", "normalized_sparsity_prox", "prox_normalize", "svd_thresholding", "procrustes"]
 SOLVERS = ["hals_nnls", "hals_nnls_cold", "fista", "active_set_nnls", "admm", "admm_constrained"]
 REG = ["cp_regressor", "tucker_regressor", "cp_plsr"]
-OTHER = ["random_cp", "random_tucker", "random_tt", "random_tr", "random_parafac2", "svd_compress", "metrics"]
+OTHER = ["np_scalar_hyper", "random_cp", "random_tucker", "random_tt", "random_tr", "random_parafac2", "svd_compress", "metrics"]
 ENTRY = TENALG + CONV + SVD + DECOMP + PROX + SOLVERS + REG + OTHER
 COMPLEX_OK = set(TENALG) - {"higher_order_moment"} | {"cp_to_tensor", "cp_to_unfolded", "tucker_to_tensor", "tt_to_tensor", "tr_to_tensor", "tt_matrix_to_tensor", "truncated_svd", "tensor_train", "tucker"}
 
@@ -294,6 +294,20 @@ def build(entry, rs, dt):
         if entry == "random_tr":
             return lambda: R.random_tr(tuple(shp), 2, random_state=sd, **ctxd), real_ok
         return lambda: R.random_parafac2([(4, 3), (5, 3)], 2, random_state=sd, **ctxd), real_ok
+    if entry == "np_scalar_hyper":
+        # hyper-parameters given as NumPy double scalars (np.logspace grids, np.float64 config values) must not decide the dtype
+        # of the factors; restricted to the entry points that keep the data dtype for such scalars on the reference tree
+        f64 = np.float64
+        which = gen.choice(rs, ["parafac_l2", "parafac_tol", "parafac_sparsity", "hals_sparsity", "nn_tucker_hals_sparsity", "constrained_simplex", "simplex_prox", "smoothness_prox"])
+        rk = [int(rs.randint(1, min(s, 3) + 1)) for s in shp]
+        table = {"parafac_l2": lambda: D.parafac(X, R_, n_iter_max=it, l2_reg=f64(0.1), random_state=sd),
+                 "parafac_tol": lambda: D.parafac(X, R_, n_iter_max=it + 2, tol=f64(1e-8), random_state=sd, return_errors=True),
+                 "parafac_sparsity": lambda: D.parafac(X, R_, n_iter_max=it, sparsity=f64(0.2), random_state=sd),
+                 "hals_sparsity": lambda: D.non_negative_parafac_hals(Xp, R_, n_iter_max=it, sparsity_coefficients=[f64(0.1)] * order, random_state=sd),
+                 "nn_tucker_hals_sparsity": lambda: D.non_negative_tucker_hals(Xp, rk, n_iter_max=it, sparsity_coefficients=[f64(0.1)] * order, random_state=sd),
+                 "constrained_simplex": lambda: D.constrained_parafac(gen.arr(rs, gen.shape(rs, 3, 2, 5), dt, "gauss"), R_, n_iter_max=it, simplex=f64(1.0), random_state=sd),
+                 "simplex_prox": lambda: P.simplex_prox(A([5, 3]), f64(1.0)), "smoothness_prox": lambda: P.smoothness_prox(A([5, 3]), f64(0.3))}
+        return table[which], real_ok
     if entry == "metrics":
         from tensorly.metrics import regression as mr
         from tensorly.metrics.factors import congruence_coefficient
